@@ -104,6 +104,8 @@ class NpCalls:
                 out = out.w(axes=shape.shapeof.axes, shape_from=shape.shapeof)
             elif shape is not None:
                 out = out.w(shape=[shape])
+                if shape.ty == 'int':
+                    out = out.w(axes=(shape.shape_of[0] if shape.shape_of else 'd0',))
             fill = None
             if name in ('full', 'full_like'):
                 fill = self.arg(args, kwargs, 1, 'fill_value')
